@@ -105,15 +105,11 @@ macro_rules! poly {
 /// RNG that replays a fixed list of raw u32 outputs (cyclically)
 struct Replay { v: Vec<u32>, i: usize }
 impl rand::RngCore for Replay {
-    fn next_u32(&mut self) -> u32 { let x = self.v[self.i % self.v.len()]; self.i += 1; x }
+    // replay the list, then continue with a Weyl sequence so that rand's rejection sampling always terminates
+    fn next_u32(&mut self) -> u32 { let x = if self.i < self.v.len() { self.v[self.i] } else { (self.i as u32).wrapping_mul(0x9E37_79B9) }; self.i += 1; x }
     fn next_u64(&mut self) -> u64 { let lo = self.next_u32() as u64; let hi = self.next_u32() as u64; (hi << 32) | lo }
     fn fill_bytes(&mut self, dest: &mut [u8]) { for b in dest.iter_mut() { *b = self.next_u32() as u8; } }
     fn try_fill_bytes(&mut self, dest: &mut [u8]) -> Result<(), rand::Error> { self.fill_bytes(dest); Ok(()) }
-}
-/// raw u32 that makes rand 0.8's `gen_range(lo..hi)` (widening-multiply sampling) return exactly `r`
-fn raw_for(r: u64, lo: u64, hi: u64) -> u32 {
-    let range = hi - lo;
-    ((((r - lo) << 32) + range - 1) / range) as u32
 }
 
 pub fn run(v: &[&str]) -> Option<String> {
@@ -126,10 +122,12 @@ pub fn run(v: &[&str]) -> Option<String> {
         ("p8", "sample_seed") => { let mut g = rand::rngs::StdRng::seed_from_u64(hx(v[2])); let p: P8E0 = g.gen(); Some(format!("{:x}", p.to_bits())) }
         ("p16", "sample_seed") => { let mut g = rand::rngs::StdRng::seed_from_u64(hx(v[2])); let p: P16E1 = g.gen(); Some(format!("{:x}", p.to_bits())) }
         ("p32", "sample_seed") => { let mut g = rand::rngs::StdRng::seed_from_u64(hx(v[2])); let p: P32E2 = g.gen(); Some(format!("{:x}", p.to_bits())) }
-        // sample with the generator steered so that gen_range returns the given value(s): ties the model's `rng_k` inputs to the code
-        ("p8", "sample_r") => { let mut g = Replay { v: vec![raw_for(hx(v[2]), 0, 0x40)], i: 0 }; let p: P8E0 = g.gen(); Some(format!("{:x}", p.to_bits())) }
-        ("p16", "sample_r") => { let mut g = Replay { v: vec![raw_for(hx(v[2]), 0, 0x4_0000)], i: 0 }; let p: P16E1 = g.gen(); Some(format!("{:x}", p.to_bits())) }
-        ("p32", "sample_r") => { let mut g = Replay { v: vec![raw_for(hx(v[2]), 0x4000_0000, 0x4800_0000), raw_for(hx(v[3]), 0, 4)], i: 0 }; let p: P32E2 = g.gen(); Some(format!("{:x}", p.to_bits())) }
+        // sample through a generator that replays the given raw 32-bit outputs (edge streams: all-zero, all-ones, ...)
+        ("p8", "sample_raw") => { let mut g = Replay { v: v[2..].iter().map(|s| hx(s) as u32).collect(), i: 0 }; let p: P8E0 = g.gen(); Some(format!("{:x}", p.to_bits())) }
+        ("p16", "sample_raw") => { let mut g = Replay { v: v[2..].iter().map(|s| hx(s) as u32).collect(), i: 0 }; let p: P16E1 = g.gen(); Some(format!("{:x}", p.to_bits())) }
+        ("p32", "sample_raw") => { let mut g = Replay { v: v[2..].iter().map(|s| hx(s) as u32).collect(), i: 0 }; let p: P32E2 = g.gen(); Some(format!("{:x}", p.to_bits())) }
+        // the private helper behind P16E1 sampling, through the --cfg softposit_verif hook
+        ("p16", "sub_one") => Some(format!("{:x}", P16E1::verif_sub_one(hx(v[2]) as u32).to_bits())),
         ("q8", "hist") => Some(quire_hist!(Q8E0, P8E0, u8, v, |q: &Q8E0| format!("{:08x}", q.to_bits()), |q: &Q8E0| Q8E0::from_bits(q.to_bits()))),
         ("q16", "hist") => Some(quire_hist!(Q16E1, P16E1, u16, v, |q: &Q16E1| format!("{:032x}", q.to_bits()), |q: &Q16E1| Q16E1::from_bits(q.to_bits()))),
         ("q32", "hist") => Some(quire_hist!(Q32E2, P32E2, u32, v,
